@@ -11,7 +11,7 @@ CFG = {
     "level_note": "Trusted: Lean kernel; my reading of the CNB rules (Spec/EnvRules, Spec/EnvSpec); translator; harness. "
                   "Modelled not verified: BTreeMap/HashMap semantics, OsString as bytes.",
     "shrink": [(2, ","), (1, ",")],
-    "rule": "every case also observes apply_to_empty(query scope) and judges it against the rule from the all-unset environment; exhaustive: every set of <=1 (quick) / <=3 (thorough) entries over 2 names x 5 behaviours x 4 scopes x 2 values, "
+    "rule": "every case also rebuilds the value with chainable_insert (must be == and apply alike) and observes apply_to_empty(query scope) and judges it against the rule from the all-unset environment; exhaustive: every set of <=1 (quick) / <=3 (thorough) entries over 2 names x 5 behaviours x 4 scopes x 2 values, "
             "x 4 query scopes x 9 starting envs (unset/empty/non-empty per name); then seeded random insert sequences "
             "(<=24 inserts, 8 names incl. empty/non-UTF-8/dotted, 15 values/delimiters incl. line breaks, CRLF, tab, multi-byte delimiters ending in a newline, 7 scopes incl. process types named build/launch, 8 query scopes incl. an unknown process); then big deltas: 12..129 (quick) / 8..300 (thorough) variables in one scope, sizes straddling 16/17, 20/21, 32/33, 64/65, 128/129, 256/257, each variable with one of 9 order-sensitive behaviour combinations, shuffled insertion, 3 starting envs; and sampled 30..200-insert sequences over 10..80 names. "
             "every case also re-builds the value with queries made after a prefix of the inserts (and on a clone) and demands the same value and result (history independence). "
